@@ -162,7 +162,12 @@ where
 
     #[inline]
     fn next(&mut self) -> Option<Self::Item> {
-        self.iter.next()
+        let v = self.iter.next();
+        // keep the announced length equal to the number of items still to come
+        if v.is_some() {
+            self.len = self.len.saturating_sub(1);
+        }
+        v
     }
 
     fn size_hint(&self) -> (usize, Option<usize>) {
@@ -178,7 +183,11 @@ where
 {
     #[inline]
     fn next_back(&mut self) -> Option<Self::Item> {
-        self.iter.next_back()
+        let v = self.iter.next_back();
+        if v.is_some() {
+            self.len = self.len.saturating_sub(1);
+        }
+        v
     }
 }
 
